@@ -229,7 +229,7 @@ def config_inventory(
     bits = {k: bool(v) for k, v in bits.items()}
     pos = pick([0, 11, 23], acl_pos) if bits["acl"] else 0
     dup = pick_int(d_up, 0, 2) if bits["durations"] else 0
-    bw = pick([100, 37], bw_i)
+    bw = pick([100, 2.5], bw_i)  # bandwidths are floats (Mbit/s): a fractional one must survive loading
     if not bits["acl"]:
         assume(acl_pos == 0)
     if not bits["durations"]:
@@ -296,7 +296,7 @@ HARNESSES = {
         "quick": [{"fixed": {"b_users": u, "b_files": u, "b_off": o, "b_route": o, "perm": p, "bw_i": 1 if p else 0}, "timeout": 280} for u in (False, True) for o in (False, True) for p in (False, True)],
         "thorough": [{"fixed": {"b_users": u, "b_files": f, "b_off": o, "perm": p}, "timeout": 1500} for u in (False, True) for f in (False, True) for o in (False, True) for p in (False, True)],
         "cover": ["built", "perm"],
-        "bounds": {"quick": "11 presence bits (4 coupled pairwise per job), 3 ACL positions (0, 11, 23), 3 durations, 2 bandwidths, key-order permutation", "thorough": "all 2^11 presence combinations"},
+        "bounds": {"quick": "11 presence bits (4 coupled pairwise per job), 3 ACL positions (0, 11, 23), 3 durations, 2 bandwidths (one fractional), key-order permutation", "thorough": "all 2^11 presence combinations"},
     },
     "shipped_inventory": {
         "fn": shipped_inventory,
